@@ -4,6 +4,7 @@ import (
 	"fmt"
 	"os"
 	"strconv"
+	"strings"
 )
 
 type checkFn func(r *Run)
@@ -38,6 +39,9 @@ func main() {
 		}
 		r := NewRun(prop, tier, seed)
 		m, note := applyMutantFromEnv()
+		if m == nil {
+			m, note = applyWeakenFromEnv()
+		}
 		if m != nil && note != "" {
 			os.Exit(finishMutant(m, r, note))
 		}
@@ -98,6 +102,34 @@ func main() {
 		os.Exit(0)
 	case "replay":
 		os.Exit(replay(os.Args[2]))
+	case "errflow":
+		// exploration: synnaxlint errflow <module> [pkg substring]
+		p, err := Load(os.Args[2])
+		if err != nil {
+			fmt.Println(err)
+			os.Exit(2)
+		}
+		sub := ""
+		if len(os.Args) > 3 {
+			sub = os.Args[3]
+		}
+		r := NewRun("X", "quick", 0)
+		checkErrFlow(r, p, "X.FLOW", func(fn *FuncNode) bool {
+			return strings.Contains(fn.Pkg.PkgPath, sub) && !strings.Contains(fn.Pkg.PkgPath, "testutil")
+		}, 0)
+		for _, o := range r.Obs {
+			if !o.OK {
+				fmt.Printf("%s | %s | %s | %v\n", o.Pos, o.Construct, o.Detail, o.Path)
+			}
+		}
+		fmt.Println(r.Stats)
+		os.Exit(0)
+	case "weaken":
+		filter := ""
+		if len(os.Args) > 3 {
+			filter = os.Args[3]
+		}
+		os.Exit(runWeaken(os.Args[2], filter))
 	default:
 		fmt.Fprintln(os.Stderr, "unknown command")
 		os.Exit(2)
